@@ -45,7 +45,7 @@ CHECKS = {
             "CGMY margins with G, M in [0.1, 0.3]) and per-step probability, middle() halves the gap mass, thresholds on cell "
             "boundaries; refinement keeps old states at doubled indices, inserts exactly the pre-refinement "
             "middle() strictly inside each gap, halves h, doubles the origin, keeps the bounds, refines shared "
-            "axes once each. Round 8: a step of 1 or 2 written as a python integer gives the grid of the float step (all constructors, after refinements).",
+            "axes once each. Round 8: a step of 1 or 2 written as a python integer gives the grid of the float step (all constructors, after refinements). Round 9: model-based uniform grids with a step coarse next to the bounds (half-axes of one or two states); uniform / geometric grids built for SDE models whose number of components differs from the driver's dimension.",
             "Sound domain: h relative to the model's jump scale so that each half-axis has >= 2 states, "
             "two-sided jump laws, thresholds inside (l,-h); documented ValueError rejections are counted as "
             "rejected, not as passes."),
@@ -81,7 +81,7 @@ CHECKS = {
             "beyond-cache, batch, cost resets; for the inversion sampler also with its memo capacity lowered to 2..60 "
             "entries, standing for chains larger than the memo) on a long-lived sampler must agree with fresh samplers. "
             "Measure-zero anomalies "
-            "(isolated u, rounding slivers) are reported under one known-finding key per sampler family. Round 8: probability vectors as ndarray / list / tuple; a chain and its sampler are built on the grid before each in-place refinement; intensities scaled by 1e-9; bounded memo also for the n-d inversion sampler.",
+            "(isolated u, rounding slivers) are reported under one known-finding key per sampler family. Round 8: probability vectors as ndarray / list / tuple; a chain and its sampler are built on the grid before each in-place refinement; intensities scaled by 1e-9; bounded memo also for the n-d inversion sampler. Round 9: grids assembled by the user (base CTMCGrid): irregular gaps and states on one side of the origin only (all six options on each), copula grids with few states left and several more right of the origin; the vector entry point of the n-d tree called twice with the caller's array and with a list.",
             "Candidate break points are read from the sampler's own tables only to make the measurement exact; "
             "the verdict comes from black-box evaluations. TABLE: law implied by its tables plus scripted batch. "
             "numpy's global RNG is seeded inside each case (the inversion sampler falls back on it)."),
@@ -98,7 +98,7 @@ CHECKS = {
             "2-d cases mix a finite- with an infinite-variation margin; the diffusion matrix D of the copula chain must be "
             "finite with D D^T = diag(sigma^2) for finite variation (D D^T - diag(sigma^2) positive semi-definite "
             "otherwise). One 1-d case in ten uses a very coarse fixed-size grid (h in [2.2, 6]): the mean is decided, the "
-            "small-jump variance is labelled undecided there. Round 8: for d=2 infinite-variation copulas D D^T - diag(sigma^2) equals the library's own small-jump covariance matrix (sharp) and, with independent components, the one-dimensional second moments within the library's quadrature bound.",
+            "small-jump variance is labelled undecided there. Round 8: for d=2 infinite-variation copulas D D^T - diag(sigma^2) equals the library's own small-jump covariance matrix (sharp) and, with independent components, the one-dimensional second moments within the library's quadrature bound. Round 9: a user-assembled model (the jumps of a library model plus a Brownian component), so that sigma^2 and the small-jump variance are both non-zero.",
             "Rates are those verified by C01; a_decl is read from the model after set_representation (the "
             "conversions on the untruncated measure are C10's subject)."),
     "C03": ("3/C03",
@@ -119,7 +119,7 @@ CHECKS = {
             "parity), and the telescoping identity is checked against a fresh level-0 chain. A third of the 1-d "
             "histories advance with next_level(path_managers=None) (the way CouplingSDE drives it); the fine "
             "diffusion coefficient is compared with a fresh chain on a copy of the level grid. CouplingSDE: coarse "
-            "and fine driver drifts, driver diffusion coefficients (against fresh chains) and epsilon = h^beta. Round 8: a levelled CouplingSDE is initialised again before its drifts are read.",
+            "and fine driver drifts, driver diffusion coefficients (against fresh chains) and epsilon = h^beta. Round 8: a levelled CouplingSDE is initialised again before its drifts are read. Round 9: 2-d copula couplings with infinite-variation margins (step-dependent diffusion matrix) over one or two levels, built up front or with a path simulated between the levels.",
             "Rates are those verified by C01; copula couplings restricted to finite-variation margins and small "
             "level-0 grids (<= 49 states in 2-d, 125 in 3-d), one refinement."),
     "C10": ("3/C10",
@@ -134,7 +134,7 @@ CHECKS = {
             "exponent / log-characteristic function of the same object unchanged after every change; for "
             "exponential models the forward is recovered from the characteristic function at -i, from the "
             "direct-simulation drift (HEM, Merton, BS) and from the Markov-chain drift under the exact truncated "
-            "jump law (up to the independently computed truncation leak). Round 8: the characteristic function is evaluated twice on one complex / real array (argument unchanged, equal to the scalar calls); drifted pure diffusions in the cumulant check.",
+            "jump law (up to the independently computed truncation leak). Round 8: the characteristic function is evaluated twice on one complex / real array (argument unchanged, equal to the scalar calls); drifted pure diffusions in the cumulant check. Round 9: the exponent and characteristic function are also asked of the exponential model objects; stddev / skewness / kurtosis against the raw moments asked one by one.",
             "Arguments |Re u|<=6, |Im u| <= 0.45 x decay rate; tolerance 1e-7 of the absolute integrals; the "
             "Markov-chain route uses the rates verified by C01."),
     "C05": ("3/C05",
@@ -146,7 +146,7 @@ CHECKS = {
             "or overwritten; coarse = 0 at level 0), N_l = ledger counts, and price, ml, vl, level means/variances, "
             "kurtosis, cl and cost are recomputed with numpy from the ledger (with controls: from textbook "
             "regression-adjusted samples). Histories are classified by what the run did (passes, levels added late, "
-            "sample sizes doubled). Round 8: down-and-out calls on scripted three-date paths (each component with its own knock-out status), per-path costs from 1e-4 to 40, kurtosis = fourth central moment / variance^2 (no mirrored floor), tolerances relative.",
+            "sample sizes doubled). Round 8: down-and-out calls on scripted three-date paths (each component with its own knock-out status), per-path costs from 1e-4 to 40, kurtosis = fourth central moment / variance^2 (no mirrored floor), tolerances relative. Round 9: maximum level below the initial level; one configuration object built for other values with its attributes (initial sample size, levels, processes) assigned afterwards.",
             "Scripted collaborator replaces only the simulator; runs bounded by 200 passes / 30000 samples "
             "(inconclusive beyond); scalar payoffs (the MLMC results are scalar by construction)."),
     "C06": ("3/C06",
@@ -157,7 +157,7 @@ CHECKS = {
             "tolerance + variance share <= rmse^2, be monotone in V_l and leave its inputs untouched; for adaptive "
             "runs of the real engine on the scripted coupling no sample or level above the maximum may be requested, "
             "the run may return only if the last bias test passed or L = maximum, and only when the last allocation "
-            "(computed from the final variances) is met within the 1% rule. Round 8: the bias test is recomputed from the ledger samples for runs that stopped below the maximum level.",
+            "(computed from the final variances) is met within the 1% rule. Round 8: the bias test is recomputed from the ledger samples for runs that stopped below the maximum level. Round 9: one Engine priced twice (the guarantees hold for the second pricing alone); maximum level below the initial level; re-assigned configuration attributes.",
             "'Always terminates' is only bounded: terminated within 200 passes / 30000 samples on every generated "
             "trajectory, a budget hit is inconclusive."),
     "C07": ("3/C07",
@@ -173,7 +173,7 @@ CHECKS = {
             "(adjusted samples compared one by one), equal to the raw mean when the given prices are the sample "
             "means, with adjusted variance <= raw variance. Underlying sizes 1, 1e-3 and 1e-6 (values, strikes and control "
             "prices scaled together; tolerances relative). The same cases are priced with 2-3 worker processes: the "
-            "recorded terminal spots must be scripted paths and every estimator the textbook one of those spots. Round 8: zero and negative notionals.",
+            "recorded terminal spots must be scripted paths and every estimator the textbook one of those spots. Round 8: zero and negative notionals. Round 9: price and error under the explicit spelling no_control_variates=False, with and without controls.",
             "Control-variate comparisons only for covariance matrices with condition number < 1e4 (counted "
             "otherwise); the near-singular guard of the library (b*=0) is mirrored."),
     "C08": ("3/C08",
@@ -194,7 +194,7 @@ CHECKS = {
             "Multilevel engine with worker processes (default count, 2, ...) x seed / none in jump-time mode: distinct samples. "
             "Pre-drawn variates of the five fixed-date simulators (direct, 1-d chain, copula chain, both couplings): one "
             "Brownian and one Poisson row per path, rows pairwise distinct, popped once per path, path i driven by row i; "
-            "one pre-computation of more than 2^21 normals: rows pairwise distinct. Round 8: seed 0; a third unseeded run at the same clock reading must not repeat the first; the table of pre-drawn jump counts holds every variate a scripted numpy Poisson sampler handed out (values beyond 2^16), once; copula coupling: one fresh uniform per projected jump.",
+            "one pre-computation of more than 2^21 normals: rows pairwise distinct. Round 8: seed 0; a third unseeded run at the same clock reading must not repeat the first; the table of pre-drawn jump counts holds every variate a scripted numpy Poisson sampler handed out (values beyond 2^16), once; copula coupling: one fresh uniform per projected jump. Round 9: seeded runs on a configuration whose number of processes was assigned after construction.",
             "The OS scheduling of workers is not controlled; the clock and every seed call are. Equal values = "
             "shared variates holds because payoffs are continuous in the variates (sigma >= 0.05)."),
     "C15": ("3/C15",
@@ -208,7 +208,7 @@ CHECKS = {
             "coarse), the diffusion path the cumulative sum of coefficient*sqrt(dt)*w_i with each scripted variate "
             "used once, inserted points must repeat the preceding value and keep every step - up to the maturity, jumps "
             "or not - under the cap; the "
-            "three finer-grid builders are also checked directly on drawn arrays. Round 8: busy intervals (up to 2e5 unit jumps per interval, counts through the real pre-computation).",
+            "three finer-grid builders are also checked directly on drawn arrays. Round 8: busy intervals (up to 2e5 unit jumps per interval, counts through the real pre-computation). Round 9: in half of the cases the uniforms behind the jump times are scripted (in decreasing order) instead of the function that orders them.",
             "Scripts replace the random collaborators on the instances (numpy.random.normal on the module for the "
             "duration of the call); small fixed grids; the coupling kernel itself is C03's subject."),
     "C16": ("3/C16",
@@ -225,7 +225,7 @@ CHECKS = {
             "level (the coupling's stored drifts are compared with those, and in 1-d the fine/coarse diffusion "
             "increments must be the fresh chains' coefficients times one Brownian path); constant a => x0 + a*Y_T, diag(x) => "
             "x0*prod(1+dY_i); epsilon = h^beta. Rate models: df(0)=1, positive, non-increasing, continuous at tenors "
-            "and equal to simple compounding of the initial curve for 1..6 periods (float and integer-typed tenors). Round 8: forward-market coefficient (re-typed per its docstring), tenors as array or list, coefficient functions evaluated on both sides of every tenor date, Libor drift through the class's function, a levelled coupling initialised again.",
+            "and equal to simple compounding of the initial curve for 1..6 periods (float and integer-typed tenors). Round 8: forward-market coefficient (re-typed per its docstring), tenors as array or list, coefficient functions evaluated on both sides of every tenor date, Libor drift through the class's function, a levelled coupling initialised again. Round 9: integer-typed initial values for the constant and diagonal coefficients (single and coupled scheme).",
             "Driver paths are the library's own random paths (numpy seeded per case), captured by a wrapper; the "
             "correctness of those paths is C15's and C03's subject."),
     "C11": ("3/C11",
@@ -258,7 +258,7 @@ CHECKS = {
             "the inverse tail integral inverts the tail integral both ways; a fresh model returns the same values. Rectangle "
             "sides also hug an axis (end points 1e-4..1e-10 of the jump scale). Half of the cases also truncate a model "
             "after its construction (random window, as a copula chain does): fast path = general formula and whole-line "
-            "mass = difference of the model's own marginal tail integrals. Round 8: levels beyond the mass of a half-line (finite activity) for the inverse tail integral.",
+            "mass = difference of the model's own marginal tail integrals. Round 8: levels beyond the mass of a half-line (finite activity) for the inverse tail integral. Round 9: rectangles with python-integer end points give the mass of the float ones.",
             "(a,0] contains the hyperplane x_k=0, so its reference mass is straddling minus positive piece; "
             "joint-density integration (dblquad) for Clayton is part of C01's copula sub-check."),
     "C17": ("3/C17",
@@ -274,7 +274,7 @@ CHECKS = {
             "fresh and reused objects and each barrier leg = its definition from the path's extremes, vector strikes, "
             "notional linear; histories contain twin paths (same terminal value, different extremes); every underlying class (all dimensions) as one "
             "object valued on a sequence of paths with representation switches equals a fresh object bitwise; underlyings are "
-            "valued on their own or through a Product switched with Product.update (the engines' route). Round 8: deep copies of the product mid-history (original looked at again at the end), integer default levels, pure-jump levels of 3e-18 and 4e5, jumps below -1 and -2 in log terms.",
+            "valued on their own or through a Product switched with Product.update (the engines' route). Round 8: deep copies of the product mid-history (original looked at again at the end), integer default levels, pure-jump levels of 3e-18 and 4e5, jumps below -1 and -2 in log terms. Round 9: a Rainbow sub-check on 2..4 assets (value against the ranked weighted terminal values, evaluated twice; the vector handed over and the path unchanged; single-asset products evaluated afterwards read their own asset).",
             "Barrier products are kept in identity representation (the barrier is compared with the raw path); "
             "LookBack raises by design and is excluded."),
     "C18": ("3/C18",
@@ -294,7 +294,7 @@ CHECKS = {
             "bounds, time-value bound, digital in [0,df]. price() on call / put / forward products with a notional (parity, "
             "common scaling) and on a digital product (refused or = digital()); strike vectors of 129..301 entries = "
             "the same strikes priced 50 at a time; the model may be re-declared in another representation first. One COS / FFT pricer "
-            "object used for a generated sequence of calls at several maturities equals fresh pricers bitwise. Round 8: a quarter of the non-BS models take the update route.",
+            "object used for a generated sequence of calls at several maturities equals fresh pricers bitwise. Round 8: a quarter of the non-BS models take the update route. Round 9: one model in six is built at another spot and the spot assigned afterwards.",
             "'Provably below tolerance' is replaced by a measured sweep (n=10000,L=10) vs (n=40000,L=20): cases "
             "outside are counted as rejected; FFT comparisons are restricted to the domain where its fixed step and "
             "damping are adequate (documented probes)."),
@@ -310,7 +310,7 @@ CHECKS = {
             "and implied_cds_spread inverts it; on symmetric and asymmetric CTMCCredit grids the sum of the rates of "
             "the chain states with a coordinate below its threshold equals the closed form up to the independently "
             "computed mass outside the grid's box; after an in-place truncation of the model the same pricer object must "
-            "agree with a fresh one and with the quadrature mass. Round 8: the CDS is written with keywords or positionally.",
+            "agree with a fresh one and with the quadrature mass. Round 8: the CDS is written with keywords or positionally. Round 9: zero interest rate one time in eight; integer-typed thresholds; the closed forms asked again (same and new pricer object) after a chain was built on the model.",
             "Chain rates are those verified by C01; copula chains restricted to finite-variation margins."),
     "C20": ("3/C20",
             "Hypothesis-generated calibration problems with a solution by construction and operation lists over "
@@ -326,7 +326,7 @@ CHECKS = {
             "to the same, a 3e-6 / 1e-3 / 20% moved volatility under the same contract. Sequences of valid/invalid assignments and "
             "initialisation() calls followed by a rebuild must give the same cached fields, exponent, measure "
             "integrals, omega and process drift as direct construction; invalid assignments must raise and keep the "
-            "old value. Round 8: Black-Scholes target written in the harness; spot re-assigned before the calibration; quiet short-dated targets (total standard deviation below 1e-3); omega compared with -psi(-i) of the object itself; a model is built before the parameter updates.",
+            "old value. Round 8: Black-Scholes target written in the harness; spot re-assigned before the calibration; quiet short-dated targets (total standard deviation below 1e-3); omega compared with -psi(-i) of the object itself; a model is built before the parameter updates. Round 9: Black-Scholes in the parameter-update histories; cumulants and an at-the-money COS call of the rebuilt model against the directly built one.",
             "Prices through the library's COS pricer (C18's subject); 'raises' outcomes are counted by label."),
 }
 
